@@ -1306,7 +1306,53 @@ func C03(c *core.Ctx) {
 		c.Und("R3.2", "anchor:std/encoding", "-", "package not loaded")
 		return
 	}
-	findDecl := func(recv, name string) *ast.FuncDecl {
+	var findDecl func(recv, name string) *ast.FuncDecl
+	// a pure forwarder (`func (v T) M(a) R { return v.mImpl(a) }`) stands for its worker
+	forwardsTo := func(fd *ast.FuncDecl, recv string) *ast.FuncDecl {
+		if fd.Body == nil || len(fd.Body.List) != 1 {
+			return nil
+		}
+		var call *ast.CallExpr
+		switch st := fd.Body.List[0].(type) {
+		case *ast.ReturnStmt:
+			if len(st.Results) == 1 {
+				call, _ = st.Results[0].(*ast.CallExpr)
+			}
+		case *ast.ExprStmt:
+			call, _ = st.X.(*ast.CallExpr)
+		}
+		if call == nil {
+			return nil
+		}
+		var params []string
+		if fd.Type.Params != nil {
+			for _, fl := range fd.Type.Params.List {
+				for _, nm := range fl.Names {
+					params = append(params, nm.Name)
+				}
+			}
+		}
+		if len(call.Args) != len(params) {
+			return nil
+		}
+		for i, a := range call.Args {
+			if id, ok := a.(*ast.Ident); !ok || id.Name != params[i] {
+				return nil
+			}
+		}
+		switch f := call.Fun.(type) {
+		case *ast.Ident:
+			if recv == "" && f.Name != fd.Name.Name {
+				return findDecl("", f.Name)
+			}
+		case *ast.SelectorExpr:
+			if x, ok := f.X.(*ast.Ident); ok && recv != "" && fd.Recv != nil && len(fd.Recv.List[0].Names) == 1 && fd.Recv.List[0].Names[0].Name == x.Name && f.Sel.Name != fd.Name.Name {
+				return findDecl(recv, f.Sel.Name)
+			}
+		}
+		return nil
+	}
+	findDecl = func(recv, name string) *ast.FuncDecl {
 		for _, f := range encPk.Syntax {
 			for _, d := range f.Decls {
 				fd, ok := d.(*ast.FuncDecl)
@@ -1320,6 +1366,9 @@ func C03(c *core.Ctx) {
 					}
 				}
 				if r == recv {
+					if w := forwardsTo(fd, recv); w != nil {
+						return w
+					}
 					return fd
 				}
 			}
